@@ -233,9 +233,21 @@ def _check(case):
             sdv = np.sqrt(np.diag(ref[0]))
             with np.errstate(all="ignore"):
                 refc = ref[j] / np.outer(sdv, sdv)
-            ok = np.outer(np.diag(ref[0]) > 1e-12, np.diag(ref[0]) > 1e-12)
+            # against the reference only where the variance is well above the rounding error of the largest one
+            # (cov error ~ eps*max var, divided by var_i); the scaling itself is tested on the real acov for all
+            big = np.diag(ref[0]) > max(1e-12, 1e-6 * float(np.nanmax(np.diag(ref[0]), initial=0.0)))
+            ok = np.outer(big, big)
             gotc = np.asarray(acorr[v][j])[np.ix_(perm, perm)]
             if gotc.shape == refc.shape:
+                g0_ = np.asarray(acov[v][0])[np.ix_(perm, perm)]
+                gj_ = np.asarray(acov[v][j])[np.ix_(perm, perm)]
+                sd_ = np.sqrt(np.where(np.diag(g0_) > 0, np.diag(g0_), np.nan))
+                with np.errstate(all="ignore"):
+                    own = gj_ / np.outer(sd_, sd_)
+                both = np.isfinite(own) & np.isfinite(gotc)
+                es = np.abs(np.where(both, gotc - own, 0.0))
+                col.check(float(es.max(initial=0.0)) <= 1e-9, "acorr:scaling",
+                          lambda: f"variant {v} order {j}: get_acorr differs from get_acov scaled by its order-0 stds by {float(es.max()):.3e}\n{lm.source(sv)}")
                 e = np.abs(np.where(ok, gotc - refc, 0.0))
                 e = np.where(np.isnan(e), np.inf, e)
                 col.check(float(e.max(initial=0.0)) <= 1e-7, "acorr:value",
